@@ -338,9 +338,41 @@ def known_findings(prop):
     return out
 
 
+_SITE_CACHE = {}
+
+
+def panic_site(file, line):
+    """A panic site that survives unrelated edits of the file: enclosing function
+    and ordinal of the panicking macro in it ("typer.rs:analyze_assignment_steps#2")
+    instead of the line number.  Falls back to the line when the source is not found."""
+    key = (file, line)
+    if key in _SITE_CACHE: return _SITE_CACHE[key]
+    res = "%s:%d" % (file, line)
+    try:
+        path = os.path.join(REPO, "src", file)
+        lines = open(path, errors="replace").read().split("\n")
+        fn, start = None, 0
+        for i in range(min(line, len(lines)) - 1, -1, -1):
+            m = re.match(r"\s*(?:pub(?:\([a-z]+\))? )?(?:const )?(?:unsafe )?fn (\w+)", lines[i])
+            if m:
+                fn, start = m.group(1), i; break
+        if fn:
+            pat = re.compile(r"\b(?:unreachable|unimplemented|todo|panic|assert|assert_eq|assert_ne)!|\.unwrap\(\)|\.expect\(")
+            n = sum(1 for l in lines[start:line] if pat.search(l))
+            # several functions of one name (impl blocks): add the ordinal of the function among its namesakes
+            same = [j for j, l in enumerate(lines[:start + 1]) if re.match(r"\s*(?:pub(?:\([a-z]+\))? )?(?:const )?(?:unsafe )?fn %s\b" % fn, l)]
+            res = "%s:%s%s#%d" % (file, fn, "" if len(same) <= 1 else "~%d" % len(same), n)
+    except OSError:
+        pass
+    _SITE_CACHE[key] = res
+    return res
+
+
 def failure_key(verdict):
-    """Key of an implementation failure: panic site (file:line), signal, timeout."""
+    """Key of an implementation failure: panic site (file:function#ordinal), signal, timeout."""
     first = verdict.split(" ")[0]
+    m = re.match(r"panic@(.*):(\d+)$", first)
+    if m: return "impl-failure:panic@" + panic_site(m.group(1), int(m.group(2)))
     if first.startswith("panic@"): return "impl-failure:" + first
     if first.startswith("crash:"): return "impl-failure:" + first
     return "impl-failure:" + first.split(":")[0]
